@@ -24,6 +24,7 @@ def dispatch (line : String) : String :=
   | "bits" :: args => Driver.Expr.handleBits (Driver.Expr.tokenize (" ".intercalate args))
   | "excavate" :: args => Driver.Expr.handleExcavate (Driver.Expr.tokenize (" ".intercalate args))
   | "burrow" :: args => Driver.Expr.handleBurrow (Driver.Expr.tokenize (" ".intercalate args))
+  | "cmp" :: args => Driver.Expr.handleCmp (Driver.Expr.tokenize (" ".intercalate args))
   | "rules" :: args => Driver.Expr.handleRules (Driver.Expr.tokenize (" ".intercalate args))
   | _ => "bad-op"
 
